@@ -66,6 +66,17 @@ CHECKS.update({
                   'with the specification\'s composition (unique up to member order).'),
 })
 
+CHECKS.update({
+ 'C06': dict(engine='equal', ref='6/C06', technique='TLA+ EqualVerdict (structural equality) with equivalence-relation invariants checked by TLC over all '
+             'pairs/triples; pairs replayed into the real Equal in 2x2 spellings',
+             text='Exhaustive over ~1.1*10^5 value pairs (null roots, nulls in arrays and as members, reordered members at two levels, swapped '
+                  'elements, 1 vs 1.0 literals) x 4 spelling combinations x both argument orders; malformed texts through the C16 word universe.'),
+ 'C11': dict(engine='decode', ref='6/C11', technique='TLA+ predicate Accepts over the full single-mutation table (thorough: all double mutations), TLC-enumerated; '
+             'each document replayed into the real DecodePatch, accessors and Apply',
+             text='The accept/reject boundary has one clause per (kind x member x JSON type); the universe is exhaustive for single mutations of all '
+                  'six kinds, so every clause is exercised on both sides; accessors are compared with the members (numbers by literal).'),
+})
+
 NA = {}
 
 
@@ -99,6 +110,8 @@ def main():
         'engines': [
             {'name': 'merge', 'path': 'spec/Merge7396.tla spec/MCMerge.tla harness/cmd/replay', 'serves_properties': ['C02', 'C03', 'C05', 'C07'],
              'kind_free_text': 'TLA+ definitions of RFC 7396 apply/create/compose with their laws, universe enumerated by TLC and replayed'},
+            {'name': 'equal', 'path': 'spec/Equal.tla spec/MCEqual.tla', 'serves_properties': ['C06'], 'kind_free_text': 'structural equality as a TLA+ relation'},
+            {'name': 'decode', 'path': 'spec/DecodePatch.tla spec/MCDecode.tla', 'serves_properties': ['C11'], 'kind_free_text': 'acceptance predicate of RFC 6902 patch documents and its mutation table'},
             {'name': 'patch', 'path': 'spec/Patch6902.tla spec/MCPatch.tla harness/cmd/replay', 'serves_properties':
                 ['C01', 'C05', 'C08', 'C12', 'C13', 'C14', 'C15'],
              'kind_free_text': 'TLA+ reference machine for RFC 6902 application, TLC-enumerated, transitions replayed into the library'},
